@@ -7,9 +7,19 @@ def _files(st):
 def file_stubs(E, contents_fn):
     """contents_fn(name: bytes) -> list of bytes (ints or z3 8-bit) or None when the file does not exist"""
     def key(p): return (p.obj, p.off)
+    IOS_OFF = 256; STATE_OFF = IOS_OFF + 32          # std::ifstream: virtual base basic_ios at +256, ios_base::_M_streambuf_state at +32
+    def set_state(E_, st, p, bits):
+        E_.store(st, p.add(STATE_OFF), 4, bits)
     def ctor(E_, st, a):
         name = E_.read_cstr(st, a[1]); data = contents_fn(name)
         _files(st)[key(a[0])] = (name, tuple(data) if data is not None else None, 0, data is None)
+        # a constructed stream object: vptr whose vbase offset locates basic_ios, and a clear (or failed) stream state,
+        # so that inline members such as operator!, fail(), eof(), good() work on it
+        o = st.wobj(a[0].obj)
+        if o.size >= a[0].off + 520:
+            o.zero.append((a[0].off + 8, a[0].off + 520))
+            E_.store(st, a[0], 8, Ptr(('g', '_ZTTSt14basic_ifstreamIcSt11char_traitsIcEE$fakevt'), 24))
+            set_state(E_, st, a[0], 4 if data is None else 0)
         st.events.append(('open-read', name)); return None
     def get(st, p):
         f = st.x.get('files', {}).get(key(p))
@@ -48,12 +58,15 @@ def file_stubs(E, contents_fn):
         else:
             for k in range(avail): E_.store(st, dst.add(k), 1, data[pos+k])
         put(st, a[0], name, data, pos + avail, avail < n)
+        if avail < n and E_.getobj(st, a[0].obj).size >= a[0].off + 520: set_state(E_, st, a[0], 6)      # eofbit | failbit
         st.events.append(('read', name, n, avail))
         return a[0]
     def getc(E_, st, a):
         name, data, pos, fail = get(st, a[0])
         if fail or pos >= len(data):
-            put(st, a[0], name, data, pos, True); return 0xffffffff
+            put(st, a[0], name, data, pos, True)
+            if E_.getobj(st, a[0].obj).size >= a[0].off + 520: set_state(E_, st, a[0], 6)
+            return 0xffffffff
         put(st, a[0], name, data, pos + 1, fail)
         b = data[pos]
         return b if is_c(b) else z3.ZeroExt(24, b)
